@@ -1,4 +1,5 @@
 import SqlObjVerif.Model.Codec
+import SqlObjVerif.Model.CodecX
 import SqlObjVerif.Model.DrvUtil
 /-! Driver for C01.
 Requests:  `w <T> <value>`  — full pipeline for writing `<value>` into a column of type `<T>`
@@ -7,6 +8,8 @@ Values: `N` | `b0` `b1` | `i<int>` | `f<cps>` (float, repr text) | `g<int>` (flo
         | `D<y>,<mo>,<d>,<h>,<mi>,<s>,<us>` | `d<y>,<mo>,<d>` | `t<h>,<mi>,<s>,<us>` | `c<cps>` (Decimal)
         | `u<cps>` (UUID) | `j<cps>` (json) | `p<cps>` (pickled) | `o<id>` | `x`
 Types: constructor names, `enum:<cps>;<cps>;…`.
+           `k cls <value>` / `k attr <value>` — the interface tables of `Model/CodecX.lean` the translated validators are
+                       run with: the classes / the attribute names (cps, `;`-joined) of the value's tag; `?` = not interpreted
 Answer of `w`: `db=… lit=… cell=… rd=… wc=… q=…`. -/
 open SqlObjVerif SqlObjVerif.Codec SqlObjVerif.DrvUtil
 
@@ -110,9 +113,25 @@ def cellOf (T : ColT) (y : PyVal) : Res DbVal :=
   | .reject => .reject
   | .unmodelled => .unmodelled
 
+def handleK (what : String) (x : PyVal) : String :=
+  if what == "cls" then
+    match PyCodec.classesOf x with
+    | some l => ";".intercalate l ++ ";"
+    | none => "?"
+  else if what == "attr" then
+    match PyCodec.attrsOf x with
+    | some l => ";".intercalate (l.map encodeCps) ++ ";"
+    | none => "?"
+  else "bad-op"
+
 def handle (line : String) : String :=
   match words line with
   | [op, t, v] =>
+    if op == "k" then
+      match val? v with
+      | some x => handleK t x
+      | none => "bad-arg"
+    else
     match colT? t, val? v with
     | some T, some x =>
       if op == "w" then
